@@ -14,6 +14,11 @@ def run(tier, seed):
                        'random.sample: that many distinct nodes of G) and "initially recovered stay recovered" are part of the proved '
                        'invariants/postconditions of Gillespie_SIR, Gillespie_SIS, fast_nonMarkov_SIR, fast_SIR; raising EoNError exactly '
                        'when both rho and initial_infecteds are given is a must_raise clause; wrapper forwarding by the delegation-binding analysis.')
+    from ..replay import sim_native
+    rep.bounded_is_supplementary = True
+    rep.add(util.native_ob('native:initial-condition:all-simulators-and-spellings', 'EoN/simulation.py:(all SIR/SIS simulators and wrappers)', sim_native.c05_native,
+                           'one 7-node graph; list/tuple/set/range/array/single node; with and without initial_recovereds; rho in {0,.3,.5,1}; rho+initial_infecteds incl. falsy values; tmin != 0'))
+    r = util.native_replayer
     rep.not_covered += ['fast_SIS, fast_nonMarkov_SIS, discrete_SIR, basic_discrete_SIS prefixes (binding only)',
                         'get_statuses(time=tmin) (see C10)']
     return rep, r
